@@ -52,8 +52,13 @@ CONSTANTS Threads,     \* thread ids
           ACSTAMPCHECK, \* add_count does so too before joining a resize (fix for finding F7)
           TRAVOFF,     \* 0 = the traverser as written; 1 = an off-by-one in recover_state (self-test of IterWeak)
           RETAINCHECK, \* TRUE = retain removes an entry only if its value is still the one the predicate saw
-          TT, MTC      \* TREEIFY_THRESHOLD, MIN_TREEIFY_CAPACITY: put on a list bin of >= TT nodes in a table shorter
-                       \* than MTC calls try_presize(2n) before add_count (longer tables treeify: outside this model)
+          TT, MTC,     \* TREEIFY_THRESHOLD, MIN_TREEIFY_CAPACITY: put on a list bin of >= TT nodes calls treeify_bin:
+                       \* try_presize(2n) in a table shorter than MTC, conversion of the bin into a tree bin otherwise
+          UT,          \* UNTREEIFY_THRESHOLD: a half of a split tree bin with <= UT nodes becomes a list bin
+          XSKIP,       \* FALSE = the code; TRUE = transfer skips a bin whose head changed while it waited for its lock
+          SMIN, SMAX   \* a removal from a tree bin answers "too small" (the bin is turned back into a list) always when
+                       \* <= SMIN nodes remain, never when > SMAX remain, and otherwise depending on the tree's shape
+                       \* (TreeBinRB.tla: SMIN = 3, SMAX = 9 for the real test) - nondeterministic here
 
 VARIABLES tabs, ntabs, table, nextTable, sizeCtl, transferIndex, count,
           node, nextId, lockOwner, pc, idx, loc,
@@ -96,6 +101,7 @@ NK == Len(InitKeys)
 SameBinLater(j) == {m \in (j+1)..NK : HashOf[InitKeys[m].k] % N0 = HashOf[InitKeys[j].k] % N0}
 Min(S) == CHOOSE x \in S : \A y \in S : x <= y
 InitNode(j) == [key |-> InitKeys[j].k, val |-> InitKeys[j].v, pl |-> InitKeys[j].pl, tag |-> 1,
+                tree |-> FALSE,
                 next |-> IF SameBinLater(j) = {} THEN NULL ELSE Min(SameBinLater(j))]
 InitBin(i) == LET S == {j \in 1..NK : HashOf[InitKeys[j].k] % N0 = i} IN IF S = {} THEN NULL ELSE Min(S)
 
@@ -107,7 +113,7 @@ Init ==
   /\ nextTable = 0
   /\ sizeCtl = IF N0 > 0 THEN LF(N0) ELSE 0
   /\ transferIndex = 0 /\ count = NK
-  /\ node = [i \in Ids |-> IF i <= NK THEN InitNode(i) ELSE [key |-> 0, val |-> 0, pl |-> 0, tag |-> 0, next |-> NULL]]
+  /\ node = [i \in Ids |-> IF i <= NK THEN InitNode(i) ELSE [key |-> 0, val |-> 0, pl |-> 0, tag |-> 0, tree |-> FALSE, next |-> NULL]]
   /\ nextId = NK + 1 /\ lockOwner = [i \in Ids |-> 0]
   /\ pc = [t \in Threads |-> "idle"] /\ idx = [t \in Threads |-> 1]
   /\ loc = [t \in Threads |-> L0]
@@ -222,7 +228,7 @@ PutCas(t) ==      \* cas_bin(null -> new node)
   /\ LET tb == loc[t].tb  o == CurOp(t)  i == BinI(tb, o.k) IN
      IF tabs[tb].bins[i] = NULL
      THEN /\ nextId <= MaxNodes
-          /\ node' = [node EXCEPT ![nextId] = [key |-> o.k, val |-> o.v, pl |-> o.pl, tag |-> o.tag, next |-> NULL]]
+          /\ node' = [node EXCEPT ![nextId] = [key |-> o.k, val |-> o.v, pl |-> o.pl, tag |-> o.tag, tree |-> FALSE, next |-> NULL]]
           /\ tabs' = [tabs EXCEPT ![tb].bins[i] = nextId]
           /\ nextId' = nextId + 1
           /\ SetLoc(t, [loc[t] EXCEPT !.d = 1, !.hint = TRUE,
@@ -267,10 +273,31 @@ Lock(t) ==        \* head.lock.lock()
 RECURSIVE Pow2AtLeast(_, _)
 Pow2AtLeast(x, p) == IF p >= x THEN p ELSE Pow2AtLeast(x, 2 * p)
 ReqCap(size) == Pow2AtLeast(size + (size \div 2) + 1, 1)
+(* A tree bin is a header entry (tree = TRUE, key 0: it matches no key) whose next pointer is the bin's   *)
+(* `first`: the traversal list of its nodes.  The red-black structure itself (TreeBinOps.tla) and the    *)
+(* parasitic read-write lock (TreeBinLock.tla) are specified separately; here a tree bin is what the     *)
+(* table-level protocol sees: one lock (the header's), a head that changes only when the bin is          *)
+(* converted, insertion at the front of the list, and removals that may turn it back into a list bin.    *)
+IsTree(b) == b # NULL /\ b # FWD /\ node[b].tree
 RECURSIVE KeysOfN(_)
-KeysOfN(p) == IF p = NULL \/ p = FWD THEN {} ELSE {node[p].key} \cup KeysOfN(node[p].next)
+KeysOfN(p) == IF p = NULL \/ p = FWD THEN {} ELSE (IF node[p].tree THEN {} ELSE {node[p].key}) \cup KeysOfN(node[p].next)
 RECURSIVE LenOfN(_)
-LenOfN(p) == IF p = NULL \/ p = FWD THEN 0 ELSE 1 + LenOfN(node[p].next)
+LenOfN(p) == IF p = NULL \/ p = FWD THEN 0 ELSE (IF node[p].tree THEN 0 ELSE 1) + LenOfN(node[p].next)
+RECURSIVE ListOfH(_, _)
+ListOfH(nd, p) == IF p = NULL THEN <<>> ELSE <<p>> \o ListOfH(nd, nd[p].next)
+RECURSIVE CloneList(_, _, _, _)
+\* fresh list nodes for the entries lst[j..] (order kept): <<head, next free id, heap>>
+CloneList(lst, j, nid, nd) ==
+  IF j > Len(lst) THEN <<NULL, nid, nd>>
+  ELSE LET r == CloneList(lst, j + 1, nid + 1, nd)  q == lst[j] IN
+       <<nid, r[2], [r[3] EXCEPT ![nid] = [key |-> nd[q].key, val |-> nd[q].val, pl |-> nd[q].pl, tag |-> nd[q].tag,
+                                           tree |-> FALSE, next |-> r[1]]]>>
+\* a new tree bin (header + cloned nodes) for the entries of lst: <<header, next free id, heap>>
+NewTree(lst, nid, nd) ==
+  LET c == CloneList(lst, 1, nid + 1, nd) IN
+  <<nid, c[2], [c[3] EXCEPT ![nid] = [key |-> 0, val |-> 0, pl |-> 0, tag |-> 0, tree |-> TRUE, next |-> c[1]]]>>
+\* the bin after a removal from tree bin b left the entries `rem`: turned back into a list iff `small`
+Untreeified(rem, nid, nd) == CloneList(rem, 1, nid, nd)
 RECURSIVE FindIn(_, _, _, _)
 \* <<node holding k or NULL, its predecessor, number of nodes walked>>
 FindIn(p, pred, k, cnt) ==
@@ -289,9 +316,9 @@ Reval(t) ==
           CASE o.op = "insert" /\ hit # NULL ->        \* n.value.swap(new); bin_count = position of the hit
                  /\ node' = [node EXCEPT ![hit].val = o.v, ![hit].pl = o.pl]
                  /\ lockOwner' = [lockOwner EXCEPT ![b] = 0]
-                 /\ IF f[3] + 1 >= TT /\ TLen(tb) < MTC
+                 /\ IF (IF IsTree(b) THEN 2 ELSE f[3] + 1) >= TT
                     THEN /\ SetLoc(t, [loc[t] EXCEPT !.r = Res(1, node[hit].val, 0, 0, 0, 0), !.after = "finish", !.req = ReqCap(2 * TLen(tb))])
-                         /\ Goto(t, "PsLoadSc") /\ UNCHANGED <<res, doneOps, idx>>
+                         /\ Goto(t, IF TLen(tb) < MTC THEN "PsLoadSc" ELSE "TfLoadBin") /\ UNCHANGED <<res, doneOps, idx>>
                     ELSE Finish(t, Res(1, node[hit].val, 0, 0, 0, 0))
                  /\ Ghost(o.k, [v |-> o.v, tag |-> node[hit].tag, pl |-> o.pl])
                  /\ UNCHANGED <<nextId, before, mig, pubs, fins, joins>> /\ UnchTab /\ UnchCtl
@@ -301,14 +328,18 @@ Reval(t) ==
                  /\ UNCHANGED <<node, nextId, before>> /\ UnchTab /\ UnchCtl /\ UnchRz
             [] o.op \in {"insert", "try_insert"} /\ hit = NULL ->   \* pred.next.store(new node)
                  /\ nextId <= MaxNodes
-                 /\ node' = [node EXCEPT ![nextId] = [key |-> o.k, val |-> o.v, pl |-> o.pl, tag |-> o.tag, next |-> NULL],
-                                         ![pred].next = nextId]
+                 \* a list bin is extended at its tail, a tree bin at the front of its traversal list (first)
+                 /\ node' = IF IsTree(b)
+                            THEN [node EXCEPT ![nextId] = [key |-> o.k, val |-> o.v, pl |-> o.pl, tag |-> o.tag, tree |-> FALSE, next |-> node[b].next],
+                                              ![b].next = nextId]
+                            ELSE [node EXCEPT ![nextId] = [key |-> o.k, val |-> o.v, pl |-> o.pl, tag |-> o.tag, tree |-> FALSE, next |-> NULL],
+                                              ![pred].next = nextId]
                  /\ nextId' = nextId + 1
                  /\ lockOwner' = [lockOwner EXCEPT ![b] = 0]
                  /\ SetLoc(t, [loc[t] EXCEPT !.d = 1, !.hint = TRUE, !.after = "", !.req = ReqCap(2 * TLen(tb)),
                                              !.r = IF o.op = "try_insert" THEN Res(1, o.v, 0, 0, 0, 0) ELSE NoRes])
                  \* bin_count = nodes in the bin before the append; an overfull bin of a short table: treeify_bin -> try_presize
-                 /\ Goto(t, IF f[3] >= TT /\ TLen(tb) < MTC THEN "PsLoadSc" ELSE "AcFetch")
+                 /\ Goto(t, IF (IF IsTree(b) THEN 2 ELSE f[3]) >= TT THEN (IF TLen(tb) < MTC THEN "PsLoadSc" ELSE "TfLoadBin") ELSE "AcFetch")
                  /\ Ghost(o.k, [v |-> o.v, tag |-> o.tag, pl |-> o.pl])
                  /\ UnchTab /\ UnchCtl /\ UNCHANGED <<res, before, doneOps, idx, mig, pubs, fins, joins>>
             [] o.op \in {"remove", "remove_entry", "compute"} /\ hit = NULL ->
@@ -322,17 +353,54 @@ Reval(t) ==
                  /\ Ghost(o.k, [v |-> o.v, tag |-> node[hit].tag, pl |-> IF o.f = "inc" THEN node[hit].pl + 1 ELSE o.pl])
                  /\ UNCHANGED <<nextId, before, mig, pubs, fins, joins>> /\ UnchTab /\ UnchCtl
             [] OTHER ->                                  \* removal: unlink (pred.next.store / store_bin)
-                 /\ IF pred = NULL
-                    THEN tabs' = [tabs EXCEPT ![tb].bins[i] = node[hit].next] /\ UNCHANGED node
-                    ELSE node' = [node EXCEPT ![pred].next = node[hit].next] /\ UNCHANGED tabs
+                 /\ IF IsTree(b)
+                    THEN \* remove_tree_node unlinks the node; "too small": the caller stores the untreeified list
+                         LET nd1 == [node EXCEPT ![pred].next = node[hit].next]
+                             rem == ListOfH(nd1, nd1[b].next) IN
+                         \E small \in BOOLEAN :
+                            /\ (Len(rem) <= SMIN => small) /\ (Len(rem) > SMAX => ~small)
+                            /\ IF small
+                               THEN LET c == Untreeified(rem, nextId, nd1) IN
+                                    /\ c[2] <= MaxNodes + 1
+                                    /\ tabs' = [tabs EXCEPT ![tb].bins[i] = c[1]] /\ node' = c[3] /\ nextId' = c[2]
+                               ELSE node' = nd1 /\ UNCHANGED <<tabs, nextId>>
+                    ELSE /\ IF pred = NULL
+                            THEN tabs' = [tabs EXCEPT ![tb].bins[i] = node[hit].next] /\ UNCHANGED node
+                            ELSE node' = [node EXCEPT ![pred].next = node[hit].next] /\ UNCHANGED tabs
+                         /\ UNCHANGED nextId
                  /\ lockOwner' = [lockOwner EXCEPT ![b] = 0]
                  /\ SetLoc(t, [loc[t] EXCEPT !.d = -1, !.hint = (o.op = "compute"),
                         !.r = IF o.op = "compute" THEN Res(0, 0, 0, 0, node[hit].val, 0)
                               ELSE Res(1, node[hit].val, IF o.op = "remove_entry" THEN node[hit].tag ELSE 0, 0, 0, 0)])
                  /\ Goto(t, "AcFetch")
                  /\ Ghost(o.k, Absent)
-                 /\ UNCHANGED <<ntabs, table, nextTable, nextId>> /\ UnchCtl
+                 /\ UNCHANGED <<ntabs, table, nextTable>> /\ UnchCtl
                  /\ UNCHANGED <<res, before, doneOps, idx, mig, pubs, fins, joins>>
+
+(* ---- treeify_bin on a table of >= MTC bins: the list bin becomes a tree bin -------------------- *)
+TfExit(t) ==
+  IF loc[t].after = "finish" THEN Finish(t, loc[t].r) ELSE Goto(t, "AcFetch") /\ UNCHANGED <<loc, res, doneOps, idx>>
+TfLoadBin(t) ==
+  /\ pc[t] = "TfLoadBin"
+  /\ LET tb == loc[t].tb  b == tabs[tb].bins[BinI(tb, CurOp(t).k)] IN
+     IF b = NULL \/ b = FWD \/ IsTree(b) THEN TfExit(t)
+     ELSE SetLoc(t, [loc[t] EXCEPT !.b = b]) /\ Goto(t, "TfLock") /\ UNCHANGED <<res, doneOps, idx>>
+  /\ UnchHeap /\ UnchTab /\ UnchCtl /\ UNCHANGED before /\ UnchRz
+TfLock(t) ==
+  /\ pc[t] = "TfLock" /\ lockOwner[loc[t].b] = 0
+  /\ lockOwner' = [lockOwner EXCEPT ![loc[t].b] = t] /\ Goto(t, "TfReval")
+  /\ UNCHANGED <<node, nextId, loc>> /\ UnchTab /\ UnchCtl /\ UnchHist
+TfReval(t) ==     \* still the head? clone the nodes into tree nodes, store the new TreeBin, unlock
+  /\ pc[t] = "TfReval"
+  /\ LET tb == loc[t].tb  i == BinI(tb, CurOp(t).k)  b == loc[t].b IN
+     IF tabs[tb].bins[i] # b
+     THEN UNCHANGED <<tabs, node, nextId>>
+     ELSE LET c == NewTree(ListOfH(node, b), nextId, node) IN
+          /\ c[2] <= MaxNodes + 1
+          /\ tabs' = [tabs EXCEPT ![tb].bins[i] = c[1]] /\ node' = c[3] /\ nextId' = c[2]
+  /\ lockOwner' = [lockOwner EXCEPT ![loc[t].b] = 0]
+  /\ TfExit(t)
+  /\ UNCHANGED <<ntabs, table, nextTable, before>> /\ UnchCtl /\ UnchRz
 
 (* ---- add_count(n, hint) --------------------------------------------------- *)
 AcFetch(t) ==     \* count.fetch_add / fetch_sub; the new count as the (fixed) code computes it
@@ -523,7 +591,7 @@ RECURSIVE Build(_, _, _, _, _, _, _)
 Build(pre, n, j, lo, hi, nid, nd) ==
    IF j > Len(pre) THEN <<lo, hi, nid, nd>>
    ELSE LET q == pre[j]
-            cl == [key |-> nd[q].key, val |-> nd[q].val, pl |-> nd[q].pl, tag |-> nd[q].tag, next |-> NULL]
+            cl == [key |-> nd[q].key, val |-> nd[q].val, pl |-> nd[q].pl, tag |-> nd[q].tag, tree |-> FALSE, next |-> NULL]
         IN IF Bit(nd[q].key, n) = 0
            THEN Build(pre, n, j + 1, nid, hi, nid + 1, [nd EXCEPT ![nid] = [cl EXCEPT !.next = lo]])
            ELSE Build(pre, n, j + 1, lo, nid, nid + 1, [nd EXCEPT ![nid] = [cl EXCEPT !.next = hi]])
@@ -531,7 +599,27 @@ XReval(t) ==      \* re-validate, split the list (last run reused, the rest clon
   /\ pc[t] = "XReval"
   /\ LET l == loc[t]  b == l.b IN
      IF tabs[l.xt].bins[l.i] # b
-     THEN /\ lockOwner' = [lockOwner EXCEPT ![b] = 0] /\ Goto(t, "XClaim") /\ UNCHANGED <<node, nextId, loc>>
+     THEN \* the head changed while this thread waited for the lock: the same bin is looked at again
+          \* (XSKIP = TRUE: it is skipped instead - self-test of ResizeSafe / GhostOK)
+          /\ lockOwner' = [lockOwner EXCEPT ![b] = 0] /\ Goto(t, "XClaim") /\ UNCHANGED <<node, nextId>>
+          /\ IF XSKIP THEN SetLoc(t, [l EXCEPT !.adv = TRUE]) ELSE UNCHANGED loc
+     ELSE IF IsTree(b)
+     THEN \* a tree bin: every node is cloned; a half of <= UT nodes becomes a list bin, a longer one a new tree bin,
+          \* and when the other half is empty the old bin itself is reused
+          LET lst == ListOfH(node, node[b].next)
+              los == SelectSeq(lst, LAMBDA q : Bit(node[q].key, l.n) = 0)
+              his == SelectSeq(lst, LAMBDA q : Bit(node[q].key, l.n) = 1)
+              Half(half, other, nid, nd) ==
+                 IF Len(half) = 0 THEN <<NULL, nid, nd>>
+                 ELSE IF Len(half) <= UT THEN CloneList(half, 1, nid, nd)
+                 ELSE IF Len(other) # 0 THEN NewTree(half, nid, nd)
+                 ELSE <<b, nid, nd>>
+              lo == Half(los, his, nextId, node)
+              hi == Half(his, los, lo[2], lo[3])
+          IN /\ hi[2] <= MaxNodes + 1
+             /\ node' = hi[3] /\ nextId' = hi[2]
+             /\ SetLoc(t, [l EXCEPT !.lo = lo[1], !.hi = hi[1]]) /\ Goto(t, "XStoreLo")
+             /\ UNCHANGED lockOwner
      ELSE LET lst == ListOf(b)
               lastRunIdx == CHOOSE j \in 1..Len(lst) :
                                /\ \A m \in j..Len(lst) : Bit(node[lst[m]].key, l.n) = Bit(node[lst[j]].key, l.n)
@@ -723,7 +811,7 @@ ItLoop(t) ==      \* one turn of the loop: return e, or end, or t.bin(i)
                /\ UNCHANGED <<res, doneOps, idx, ith>>
                /\ IF b = FWD
                   THEN SetLoc(t, [l EXCEPT !.b = b]) /\ Goto(t, "ItDescend")
-                  ELSE SetLoc(t, [Advance(l, n) EXCEPT !.e = b]) /\ UNCHANGED pc
+                  ELSE SetLoc(t, [Advance(l, n) EXCEPT !.e = IF IsTree(b) THEN node[b].next ELSE b]) /\ UNCHANGED pc
   /\ UnchHeap /\ UnchTab /\ UnchCtl /\ UNCHANGED <<before, mig, pubs, fins, joins, amap>>
 ItDescend(t) ==   \* forwarding marker: t.next_table; push_state(t, i, n)
   /\ pc[t] = "ItDescend"
@@ -767,16 +855,27 @@ RtReval(t) ==     \* still the head? find the key; remove it if (retain) its val
           IF hit = NULL \/ (o.op = "retain" /\ RETAINCHECK /\ node[hit].val # l.ov)
           THEN /\ lockOwner' = [lockOwner EXCEPT ![b] = 0] /\ BackToIter(t)
                /\ UNCHANGED <<node, nextId>> /\ UnchTab /\ UnchCtl /\ UnchHist
-          ELSE /\ IF pred = NULL
-                  THEN tabs' = [tabs EXCEPT ![tb].bins[i] = node[hit].next] /\ UNCHANGED node
-                  ELSE node' = [node EXCEPT ![pred].next = node[hit].next] /\ UNCHANGED tabs
+          ELSE /\ IF IsTree(b)
+                  THEN LET nd1 == [node EXCEPT ![pred].next = node[hit].next]
+                           rem == ListOfH(nd1, nd1[b].next) IN
+                       \E small \in BOOLEAN :
+                          /\ (Len(rem) <= SMIN => small) /\ (Len(rem) > SMAX => ~small)
+                          /\ IF small
+                             THEN LET c == Untreeified(rem, nextId, nd1) IN
+                                  /\ c[2] <= MaxNodes + 1
+                                  /\ tabs' = [tabs EXCEPT ![tb].bins[i] = c[1]] /\ node' = c[3] /\ nextId' = c[2]
+                             ELSE node' = nd1 /\ UNCHANGED <<tabs, nextId>>
+                  ELSE /\ IF pred = NULL
+                          THEN tabs' = [tabs EXCEPT ![tb].bins[i] = node[hit].next] /\ UNCHANGED node
+                          ELSE node' = [node EXCEPT ![pred].next = node[hit].next] /\ UNCHANGED tabs
+                       /\ UNCHANGED nextId
                /\ lockOwner' = [lockOwner EXCEPT ![b] = 0]
                /\ SetLoc(t, [l EXCEPT !.d = -1, !.hint = FALSE]) /\ Goto(t, "AcFetch")
                /\ amap' = [amap EXCEPT ![k] = Absent]
                /\ ith' = [u \in Threads |->
                             IF u = t THEN [ith[u] EXCEPT !.touched = @ \cup {k}, !.rm = @ \cup {<<k, node[hit].val, o.f, o.op = "retain_force">>}]
                             ELSE IF ith[u].on THEN [ith[u] EXCEPT !.touched = @ \cup {k}] ELSE ith[u]]
-               /\ UNCHANGED <<ntabs, table, nextTable, nextId>> /\ UnchCtl
+               /\ UNCHANGED <<ntabs, table, nextTable>> /\ UnchCtl
                /\ UNCHANGED <<res, before, doneOps, idx, mig, pubs, fins, joins>>
 
 Step(t) ==
@@ -788,6 +887,7 @@ Step(t) ==
    \/ XSwapNext(t) \/ XStoreTi(t) \/ XLoadNt(t) \/ XClaim(t) \/ XCasTi(t) \/ XCheck(t) \/ XLoadScLeave(t) \/ XCasLeave(t)
    \/ XLoadBin(t) \/ XAdv(t) \/ XCasFwd(t) \/ XLock(t) \/ XReval(t) \/ XStoreLo(t) \/ XStoreHi(t) \/ XStoreFwd(t)
    \/ XClearNext(t) \/ XSwapTable(t) \/ XStoreSc(t)
+   \/ TfLoadBin(t) \/ TfLock(t) \/ TfReval(t)
    \/ RtLoadTable(t) \/ RtLoadBin(t) \/ RtLock(t) \/ RtReval(t)
    \/ RsLoadCnt(t) \/ PsLoadSc(t) \/ PsLoadTable(t) \/ PsCasInit(t) \/ PsInitRecheck(t) \/ PsInitRestore(t)
    \/ PsInitSwap(t) \/ PsInitStoreSc(t) \/ PsRecheck(t) \/ PsCasStart(t)
@@ -836,9 +936,9 @@ ResizeSafe == MigOnce /\ PubOnce /\ PubCurrent /\ PubComplete /\ FinOnce /\ Join
 
 \* C05: at quiescence the table is well formed and count / lookups / contents agree
 RECURSIVE KeysOf(_)
-KeysOf(p) == IF p = NULL \/ p = FWD THEN {} ELSE {node[p].key} \cup KeysOf(node[p].next)
+KeysOf(p) == IF p = NULL \/ p = FWD THEN {} ELSE (IF node[p].tree THEN {} ELSE {node[p].key}) \cup KeysOf(node[p].next)
 RECURSIVE LenOf(_)
-LenOf(p) == IF p = NULL \/ p = FWD THEN 0 ELSE 1 + LenOf(node[p].next)
+LenOf(p) == IF p = NULL \/ p = FWD THEN 0 ELSE (IF node[p].tree THEN 0 ELSE 1) + LenOf(node[p].next)
 QuiescentOK == AllDone =>
    /\ nextTable = 0 /\ sizeCtl >= 0
    /\ \A id \in Ids : lockOwner[id] = 0
